@@ -96,6 +96,10 @@ HOSTILE_KEYS = ['{}', '{0}', '{1}', '{x}', '{!r}', '{0.real}', '{0[0]}', '{:d}',
                 '__class__', '{self}', '{key}', '{error}', '{value}',
                 # long runs of one character class closed by a foreign character: the
                 # classic shape that makes a backtracking regular expression explode
+                # printf-style width / precision bombs (a logging call that pastes a peer's
+                # name into its format string would try to build gigabytes)
+                '%2000000000d', '%.2000000000f', '%-1999999999s', '%*d', '%2000000000%',
+                '%300000000d', '%50000000s', '%.80000000f', '%0400000000x',
                 'a' * 30 + '!', 'a' * 48 + ' ', 'ab' * 20 + ':', 'a.' * 24 + '!',
                 'a-' * 24 + '--', '0' * 40 + 'x', ' ' * 40 + '\t', 'A' * 64 + '\x00',
                 'x-' + 'k' * 40 + ':v', '_' * 36 + '-', 'a' * 26 + '\u00e9']
